@@ -207,7 +207,28 @@ CasesR == {Case("R", 3, [f1 |-> o, f2 |-> Absent], [f1 |-> Absent, f2 |-> n]) : 
           \cup {Case("R", 3, [f1 |-> o, f2 |-> F(<<"z">>, TRUE, "100644", FALSE)], [f1 |-> n, f2 |-> F(<<"z", "z">>, TRUE, "100644", FALSE)]) :
                   o \in TCont, n \in TCont}
 
-Cases == {c \in CasesP \cup CasesL \cup CasesT \cup CasesR : c.old # c.new}
+\* family M: patches of several files.  A patch is the sequence of the file patches of its files and
+\* nothing flows from one file to the next (theorem Compositional below; checked on go-git's output
+\* by UnifiedCheck!"state-leaks-between-files").  The earlier file (f1) is the 12-line template with
+\* one edit that leaves more than the requested context unchanged at its end (trailing 10, 7, 4) or
+\* exactly 3 / none; the later file (f2) is changed at its first or second line, beyond its first
+\* three lines, added, deleted, binary, or only changes mode.
+MBody == <<"x", "y", "z", "x", "y", "z">>
+MFirst == {F(WithEdits({<<2, "rep">>}), TRUE, "100644", FALSE), F(WithEdits({<<5, "del">>}), TRUE, "100644", FALSE),
+           F(WithEdits({<<8, "ins">>}), TRUE, "100644", FALSE), F(WithEdits({<<9, "rep">>}), TRUE, "100644", FALSE),
+           F(WithEdits({<<12, "rep">>}), FALSE, "100644", FALSE)}
+MSecond == { <<F(MBody, TRUE, "100644", FALSE), F(<<"z">> \o Tail(MBody), TRUE, "100644", FALSE)>>,            \* line 1
+             <<F(MBody, TRUE, "100644", FALSE), F(<<"x", "x">> \o Tail(Tail(MBody)), TRUE, "100644", FALSE)>>,  \* line 2
+             <<F(MBody, TRUE, "100644", FALSE), F(SubSeq(MBody, 1, 5) \o <<"x">>, TRUE, "100644", FALSE)>>,     \* line 6
+             <<F(MBody, TRUE, "100644", FALSE), F(MBody, FALSE, "100644", FALSE)>>,                              \* final newline only
+             <<Absent, F(MBody, TRUE, "100644", FALSE)>>, <<Absent, F(<<"x">>, FALSE, "100755", FALSE)>>,         \* added
+             <<F(MBody, TRUE, "100644", FALSE), Absent>>, <<F(<<"y">>, FALSE, "100644", FALSE), Absent>>,         \* deleted
+             <<Absent, F(<<"b1">>, TRUE, "100644", TRUE)>>,                                                      \* binary added
+             <<F(MBody, TRUE, "100644", FALSE), F(MBody, TRUE, "100755", FALSE)>> }                              \* mode only
+CasesM == {Case("M", c, [f1 |-> F(Tpl, TRUE, "100644", FALSE), f2 |-> s[1]], [f1 |-> a, f2 |-> s[2]]) :
+             c \in Ctxs, a \in MFirst, s \in MSecond}
+
+Cases == {c \in CasesP \cup CasesL \cup CasesT \cup CasesR \cup CasesM : c.old # c.new}
 
 FileJ(f) == [p |-> f.p, lines |-> f.lines, nl |-> f.nl, mode |-> f.mode, bin |-> f.bin]
 CaseJ(c) == [fam |-> c.fam, ctx |-> c.ctx,
@@ -234,6 +255,27 @@ TextCase == \A p \in Paths : case.old[p].p /\ case.new[p].p /\ ~case.old[p].bin 
             => LET o == case.old[p]  n == case.new[p]  r == ApplyHunks(o, <<Whole(o, n)>>)
                IN /\ r.ok /\ r.lines = n.lines /\ (n.lines # <<>> => r.nl = n.nl)
                   /\ HunkProblems(Whole(o, n), 0) = {}
+\* a patch of several files is the concatenation of the patches of its files: applying the file
+\* patches one after the other gives the same tree as applying the concatenation, and that tree is
+\* the target; no file patch depends on the one before it
+WholeFP(p, o, n) ==
+  [kind |-> IF ~o.p THEN "new" ELSE IF ~n.p THEN "delete" ELSE "modify", opath |-> p, npath |-> p,
+   omode |-> o.mode, nmode |-> n.mode, binary |-> FALSE, rename |-> FALSE,
+   hunks |-> IF o.lines = n.lines /\ (o.nl = n.nl \/ o.lines = <<>>) THEN <<>> ELSE <<Whole(o, n)>>]
+TextTree(t) == \A p \in Paths : ~t[p].bin
+Compositional ==
+  (TextTree(case.old) /\ TextTree(case.new) /\ \A p \in Paths : TypeOf(case.old[p].mode) = TypeOf(case.new[p].mode) \/ ~case.old[p].p \/ ~case.new[p].p) =>
+     LET a == IF case.old["f1"] = case.new["f1"] THEN <<>> ELSE <<WholeFP("f1", case.old["f1"], case.new["f1"])>>
+         b == IF case.old["f2"] = case.new["f2"] THEN <<>> ELSE <<WholeFP("f2", case.old["f2"], case.new["f2"])>>
+         both == ApplyPatch(case.old, a \o b, case.new)
+         first == ApplyPatch(case.old, a, case.new)
+         second == ApplyPatch(first.tree, b, case.new)
+         norm(t) == [p \in Paths |-> IF t[p].p /\ t[p].lines = <<>> THEN [t[p] EXCEPT !.nl = TRUE] ELSE t[p]]
+     IN /\ both.ok /\ first.ok /\ second.ok
+        /\ both.tree = second.tree
+        /\ norm(both.tree) = norm(case.new)
+        \* and the order of independent file patches does not matter
+        /\ ApplyPatch(case.old, b \o a, case.new).tree = both.tree
 \* applying no hunk is the identity
 Identity == \A p \in Paths : case.old[p].p /\ ~case.old[p].bin =>
                LET r == ApplyHunks(case.old[p], <<>>) IN r.ok /\ r.lines = case.old[p].lines /\ r.nl = case.old[p].nl
